@@ -67,13 +67,26 @@ def c06Dyn (x : AgInfo) (p c : AgD) : Verdicts :=
         (if selOk then [] else [("C06", s!"pair {q.id} lost the selection when its peer-reflexive remote was superseded")])
       else acc) []
 
+/-- how many pairs on (local addr, remote addr, remote type) exceed the number of candidate combinations -/
+def dupExcess (c : AgD) (la ra rty : Nat) : Nat :=
+  let n := (c.pairs.filter fun q => q.la == la && q.ra == ra && q.rty == rty).length
+  let cap (net : Nat) : Nat :=
+    (c.locs.filter fun l => l.addr == la && l.net == net).length *
+    (c.rems.filter fun r => r.addr == ra && r.ty == rty && r.net == net).length
+  n - (cap 0 + cap 1)
+
 /-- static clauses, reported on the line where a violation appears (not again while it persists).  When two
 pairs were merged by a peer-reflexive supersession the reason says so (known-finding wording). -/
 def c06StaticNew (x : AgInfo) (p c : AgD) : Verdicts :=
   let vs := c06Static x c
   if vs.isEmpty then [] else
   let old := c06Static x p
-  (vs.filter fun v => !old.contains v).map fun (pr, why) =>
+  -- a duplicate that already existed before the op (same excess of pairs over candidate combinations on
+  -- the same addresses) is not a new violation even if further candidates changed the counts in its text
+  let persists (why : String) : Bool := c.pairs.any fun q =>
+    (why.startsWith s!"the pair ({q.la}>{q.ra} type {q.rty}) is listed") &&
+    dupExcess c q.la q.ra q.rty ≤ dupExcess p q.la q.ra q.rty
+  (vs.filter fun v => !old.contains v && !persists v.2).map fun (pr, why) =>
     -- the known-finding wording applies when the duplicate comes from MERGING existing pairs through a
     -- peer-reflexive supersession: some pair on these addresses had a prflx remote before the op, has a
     -- signalled one now, and the number of pairs on these addresses did not grow (a pair added twice is
